@@ -4,9 +4,9 @@ C05 — keep-balance never trashes a replica that is still needed or too new.
 All theorems are about `balanceBlock env classes sorter mounts reps` (Model/C05.lean, the code after
 the fix: commits for F1, F2, F12) for ANY number of services, mounts and classes, any flags,
 replication counts, device ids (blank, unique, shared between servers) and timestamps, and for EVERY
-behaviour of the unstable per-class sort: `sorter` is arbitrary, the only hypothesis (`BalanceOK` /
-`PlanOK`) is that each of its calls during the run returned a permutation of its input that is sorted
-w.r.t. the code's comparator. `plan` adds cleanupMounts and setupLookupTables in front.
+behaviour of the unstable per-class sort: `sorter` is arbitrary, the only hypothesis (`BalancePerm` /
+`PlanPerm`) is that each of its calls during the run returned a permutation of its input — not even
+that it is sorted (`BalanceOK`, what `sort.Slice` guarantees, implies it). `plan` adds cleanupMounts and setupLookupTables in front.
 
 The central clause `C05_trash_safe`, the physical under-replication clause and the lost clause hold
 at full strength: no hypothesis on servers, devices or classes beyond (a) mount identities are
@@ -16,16 +16,34 @@ distinct (pointer identity in Go) and (b) mounts of one device agree on classes 
 import ArvVerif.Proofs.C05Lost
 import ArvVerif.Proofs.C05Setup
 import ArvVerif.Proofs.C05Plan
+import ArvVerif.Proofs.C05Enum
 import ArvVerif.Proofs.C05Witness
 namespace ArvVerif.C05
 
 variable (env : Env) (classes : List Class) (sorter : Class → List Slot → List Slot)
   (mounts : List Mount) (reps : List Replica)
 
-/-- `plan`'s sort calls all returned sorted permutations -/
+/-- `plan`'s sort calls all returned sorted permutations (what `sort.Slice` guarantees) -/
 def PlanOK (env : Env) (dflt : Class) (sorter : Class → List Slot → List Slot)
     (svcs : List RawService) (reps : List Replica) : Prop :=
   BalanceOK env (classesOf dflt (cleanupMounts svcs)) sorter (effMounts dflt (cleanupMounts svcs)) reps
+
+/-- `plan`'s sort calls all returned permutations (all the theorems below need) -/
+def PlanPerm (env : Env) (dflt : Class) (sorter : Class → List Slot → List Slot)
+    (svcs : List RawService) (reps : List Replica) : Prop :=
+  BalancePerm env (classesOf dflt (cleanupMounts svcs)) sorter (effMounts dflt (cleanupMounts svcs)) reps
+
+/-- The hypothesis of every theorem below, `BalancePerm`/`PlanPerm` ("each sort call returned some
+permutation of its input"), holds for the real sort (`BalanceOK`: a permutation that is moreover
+sorted w.r.t. the code's comparator) and for every choice the executable model makes from its
+enumeration of possible sort results — so the theorems cover the code for every behaviour of the
+unstable sort, and every outcome the model driver prints. -/
+theorem C05_hypothesis_covers_sort_and_model (env : Env) (classes : List Class)
+    (sorter : Class → List Slot → List Slot) (mounts : List Mount) (reps : List Replica) :
+    (BalanceOK env classes sorter mounts reps → BalancePerm env classes sorter mounts reps) ∧
+    ((∀ c l, ∃ rs, allSorted (less env c) l = some rs ∧ sorter c l ∈ rs) →
+      BalancePerm env classes sorter mounts reps) :=
+  ⟨BalanceOK.toPerm, fun h => runPerm_of_enumerated env sorter h classes _⟩
 
 /-! ## trash: age -/
 
@@ -44,7 +62,7 @@ example : ∃ p ∈ okResult.changes, p.2 = .trash 800 := by decide
 
 /-- No trash names a read-only mount (read-only as balanceBlock sees it, i.e. after
 setupLookupTables merged the server flag into the mount flag). -/
-theorem C05_no_trash_on_readonly_mount (hok : BalanceOK env classes sorter mounts reps)
+theorem C05_no_trash_on_readonly_mount (hok : BalancePerm env classes sorter mounts reps)
     (p : Slot × Change) (t : Int)
     (hp : p ∈ (balanceBlock env classes sorter mounts reps).changes) (ht : p.2 = .trash t) :
     p.1.mnt.ro = false ∧ p.1.mnt ∈ mounts := by
@@ -66,7 +84,7 @@ theorem C05_no_trash_on_readonly_mount (hok : BalanceOK env classes sorter mount
 /-- End to end: a trash computed from the discovered layout names a mount that is not read-only and
 sits on a service that is not read-only. -/
 theorem C05_no_trash_on_readonly (dflt : Class) (svcs : List RawService)
-    (hok : PlanOK env dflt sorter svcs reps) (p : Slot × Change) (t : Int)
+    (hok : PlanPerm env dflt sorter svcs reps) (p : Slot × Change) (t : Int)
     (hp : p ∈ (plan env dflt sorter svcs reps).changes) (ht : p.2 = .trash t) :
     ∃ sv ∈ svcs, ∃ rm ∈ sv.mounts, rm.id = p.1.mnt.id ∧ sv.id = p.1.mnt.srv ∧ rm.ro = false ∧ sv.ro = false := by
   have h := C05_no_trash_on_readonly_mount env _ sorter _ reps hok p t hp ht
@@ -96,7 +114,7 @@ example :
 
 /-- If for some class of the loop with desired > 0 the replication of the block, counted over
 distinct physical devices, is below desired, no trash is emitted for the block at all. -/
-theorem C05_underreplicated_no_trash (hok : BalanceOK env classes sorter mounts reps)
+theorem C05_underreplicated_no_trash (hok : BalancePerm env classes sorter mounts reps)
     (hid : DistinctIds mounts) (hcons : DeviceConsistent mounts)
     (c : Class) (hc : c ∈ classes) (hd : env.desired c ≠ 0)
     (hu : physRepl c (balanceBlock env classes sorter mounts reps).heldBefore < env.desired c) :
@@ -147,7 +165,7 @@ example :
 
 /-- Every pull targets a writable mount of the layout that lacks the block, is emitted only when
 the block has a replica, and names as source the service of a replica (`blk.Replicas[0]`). -/
-theorem C05_pull_targets (hok : BalanceOK env classes sorter mounts reps)
+theorem C05_pull_targets (hok : BalancePerm env classes sorter mounts reps)
     (p : Slot × Change) (src : Option Nat)
     (hp : p ∈ (balanceBlock env classes sorter mounts reps).changes) (hpull : p.2 = .pull src) :
     p.1.mnt ∈ mounts ∧ p.1.mnt.ro = false ∧ replicaOn reps p.1.mnt.id = none ∧
@@ -246,7 +264,7 @@ theorem C05_lost_any_class_full_fails : ¬ C05_lost_any_class_Full := by
 
 /-- what holds: both clauses for every class of the loop, i.e. every class some mount offers and
 `default` — `C05_underreplicated_no_trash` and `C05_lost_reported` (restated) -/
-theorem C05_any_class_partial (hok : BalanceOK env classes sorter mounts reps)
+theorem C05_any_class_partial (hok : BalancePerm env classes sorter mounts reps)
     (hid : DistinctIds mounts) (hcons : DeviceConsistent mounts)
     (c : Class) (hc : c ∈ classes) (hd : env.desired c ≠ 0) :
     (physRepl c (balanceBlock env classes sorter mounts reps).heldBefore < env.desired c →
@@ -261,7 +279,7 @@ theorem C05_any_class_partial (hok : BalanceOK env classes sorter mounts reps)
 observed for the replica on that mount (the last index entry naming it), and that mount's UUID;
 a pull request carries the bare hash, the URL of the service of `blk.Replicas[0]`, and the target
 mount's UUID. The JSON texts have exactly the keepstore field names. -/
-theorem C05_json_shape (hok : BalanceOK env classes sorter mounts reps)
+theorem C05_json_shape (hok : BalancePerm env classes sorter mounts reps)
     (blkid hash size : List Char) (hb : blkid = hash ++ '+' :: size) (hl : hash.length = 32)
     (uuidOf urlOf : Nat → List Char) :
     (∀ s t, (s, t) ∈ (balanceBlock env classes sorter mounts reps).trashes →
@@ -338,7 +356,7 @@ replication ≥ min(d, what it was), counted over distinct physical devices (a t
 device is taken to remove the device's replica). Any number of services, mounts per server and
 classes; devices blank, unique or shared; any flags, replication counts and timestamps; every
 behaviour of the unstable sort. -/
-theorem C05_trash_safe (hok : BalanceOK env classes sorter mounts reps)
+theorem C05_trash_safe (hok : BalancePerm env classes sorter mounts reps)
     (hid : DistinctIds mounts) (hcons : DeviceConsistent mounts)
     (c : Class) (hc : c ∈ classes) (hd : env.desired c ≠ 0) :
     min (env.desired c) (physRepl c (balanceBlock env classes sorter mounts reps).heldBefore) ≤
@@ -353,7 +371,7 @@ theorem C05_trash_safe (hok : BalanceOK env classes sorter mounts reps)
 balanceBlock), with the hypotheses stated on what the keepstore servers report: the mounts are
 distinct objects and mounts of one device report the same classes and replication. The hypotheses
 of the block-level theorem are derived (`plan_distinctIds`, `plan_deviceConsistent`). -/
-theorem C05_trash_safe_plan (dflt : Class) (svcs : List RawService) (hok : PlanOK env dflt sorter svcs reps)
+theorem C05_trash_safe_plan (dflt : Class) (svcs : List RawService) (hok : PlanPerm env dflt sorter svcs reps)
     (hid : RawDistinctIds svcs) (hcons : RawDeviceConsistent svcs)
     (c : Class) (hc : c ∈ classesOf dflt (cleanupMounts svcs)) (hd : env.desired c ≠ 0) :
     min (env.desired c) (physRepl c (plan env dflt sorter svcs reps).heldBefore) ≤
@@ -362,7 +380,7 @@ theorem C05_trash_safe_plan (dflt : Class) (svcs : List RawService) (hok : PlanO
 
 /-- the same for the under-replication clause -/
 theorem C05_underreplicated_no_trash_plan (dflt : Class) (svcs : List RawService)
-    (hok : PlanOK env dflt sorter svcs reps) (hid : RawDistinctIds svcs) (hcons : RawDeviceConsistent svcs)
+    (hok : PlanPerm env dflt sorter svcs reps) (hid : RawDistinctIds svcs) (hcons : RawDeviceConsistent svcs)
     (c : Class) (hc : c ∈ classesOf dflt (cleanupMounts svcs)) (hd : env.desired c ≠ 0)
     (hu : physRepl c (plan env dflt sorter svcs reps).heldBefore < env.desired c) :
     ∀ p ∈ (plan env dflt sorter svcs reps).changes, ∀ t, p.2 ≠ .trash t :=
